@@ -141,9 +141,9 @@ Record config := mkCfg {
   c_domain : bytes;             (* domainpart of the session's local address *)
   c_tlsname : option bytes;     (* ServerName of the tls.Config given to StartTLS, None = nil config *)
   c_teefirst : bool             (* which negotiator.go is under test: false = `first := data == nil`
-                                   (false again after the tee-wrapping call returned its state, as on
-                                   main); true = `first` survives the tee-wrapping call (the repair that
-                                   belongs to C02).  Without tee the two coincide. *) }.
+                                   (false after the tee-wrapping call returned its state: the pinned
+                                   tree); true = `first` survives the tee-wrapping call (C02's repair,
+                                   e4379d7).  Without tee the two coincide.  The harness probes it. *) }.
 
 (* negotiatorState *)
 Record nstate := mkNS { ns_restart : bool; ns_first : bool }.
